@@ -7,6 +7,7 @@ import (
 	"fmt"
 	"os"
 	"strings"
+	"sync"
 	"testing"
 
 	"github.com/roddhjav/apparmor.d/pkg/aa"
@@ -326,7 +327,7 @@ func genC16RecOfClass(t *rapid.T, idx int, forced string) C16Rec {
 		set("error", "-13")
 		set("profile", r.Profile)
 		name, _ := genName(t)
-		set("name", name+"/")
+		set("name", strings.TrimRight(name, "/")+"/")
 		set("pid", "1234")
 		set("comm", comm)
 		set("fstype", pick(t, "fstype", []string{"tmpfs", "proc", "overlay", "ext4"}))
@@ -341,17 +342,18 @@ func genC16RecOfClass(t *rapid.T, idx int, forced string) C16Rec {
 		set("class", "mount")
 		set("profile", r.Profile)
 		name, _ := genName(t)
-		set("name", name+"/")
+		set("name", strings.TrimRight(name, "/")+"/")
 		set("pid", "1234")
 		set("comm", comm)
 	case "pivotroot":
 		set("operation", "pivotroot")
 		set("class", "mount")
 		set("profile", r.Profile)
-		set("name", "/run/systemd/mount-rootfs/")
+		nr := pick(t, "newroot", []string{"/run/systemd/mount-rootfs/", "/newroot/", "/run/user/1000/rootfs/", "/var/lib/machines/a/"})
+		set("name", nr)
 		set("pid", "1234")
 		set("comm", comm)
-		set("srcname", "/run/systemd/mount-rootfs/old/")
+		set("srcname", pick(t, "putold", []string{nr + "old/", nr + ".pivot/", nr}))
 	case "mqueue":
 		set("operation", pick(t, "mqop", []string{"open", "unlink", "getattr"}))
 		set("class", pick(t, "mqclass", []string{"posix_mqueue", "sysv_mqueue"}))
@@ -456,6 +458,42 @@ func fieldHas(r RS, field, want string) bool {
 	return false
 }
 
+var (
+	c16PatMu    sync.Mutex
+	c16PatCache = map[string]*DFA{}
+)
+
+// patternMatches: does the (possibly generalised) path pattern of a rule still match the recorded
+// name under the shipped tunables? Judged by the reference parser: the pattern is compiled as a
+// file rule and the recorded name walked through the automaton.
+func patternMatches(pattern, name string) (ok, inconclusive bool, err error) {
+	if pattern == "" {
+		return true, false, nil // no path condition: every path
+	}
+	c16PatMu.Lock()
+	d, hit := c16PatCache[pattern]
+	c16PatMu.Unlock()
+	if !hit {
+		ov, oerr := shippedTunablesOverlay()
+		if oerr != nil {
+			return false, false, fmt.Errorf("INFRA: %v", oerr)
+		}
+		cp, cerr := Ref{Base: ov}.CompileOne(stubOf("  " + pattern + " r,"))
+		if cerr == ErrRefTimeout {
+			return false, true, nil
+		}
+		if cerr != nil {
+			return false, false, fmt.Errorf("the pattern %q does not load as a path: %v", pattern, firstLine(cerr))
+		}
+		d = cp.File()
+		c16PatMu.Lock()
+		c16PatCache[pattern] = d
+		c16PatMu.Unlock()
+	}
+	a, _ := d.Perms(name)
+	return (a>>halfBits)&permR != 0 || a&permR != 0, false, nil
+}
+
 func qualifierOK(r RS, state string) bool {
 	return r.Bool("Audit") == (state == "AUDIT") && r.Str("AccessType") != "deny"
 }
@@ -482,6 +520,21 @@ func c16Oracle(c C16Case) (inconclusive bool, err error) {
 			}
 			return false
 		}
+		// pathOK: the rule's path pattern (quotes aside) matches the recorded path
+		var pathErr error
+		pathOK := func(pattern, recorded string) bool {
+			ok, inc, err := patternMatches(strings.Trim(pattern, `"`), recorded)
+			if inc {
+				inconclusive = true
+				return true
+			}
+			if err != nil {
+				pathErr = err
+				return false
+			}
+			return ok
+		}
+		_ = pathErr
 		f := rec.Fields
 		fail := func(what string) error {
 			return fmt.Errorf("record %d (%s) is not covered: %s\n--- record\n%s\n--- rules generated under %q\n%s", i, rec.Class, what, rec.Line(), rec.Profile, printRulesOfKinds(p.Rules, aa.FILE, aa.LINK, aa.CAPABILITY, aa.NETWORK, aa.UNIX, aa.SIGNAL, aa.PTRACE, aa.DBUS, aa.MOUNT, aa.REMOUNT, aa.UMOUNT, aa.PIVOTROOT, aa.MQUEUE, aa.IOURING, aa.USERNS, aa.RLIMIT, aa.CHANGEPROFILE))
@@ -591,17 +644,23 @@ func c16Oracle(c C16Case) (inconclusive bool, err error) {
 						return false
 					}
 				}
-				return fieldHas(r, "FsType", f["fstype"])
+				if kind == "mount" && !fieldHas(r, "Source", f["srcname"]) {
+					return false
+				}
+				return fieldHas(r, "FsType", f["fstype"]) && pathOK(r.Str("MountPoint"), f["name"])
 			}) {
-				return false, fail("no " + kind + " rule with the recorded fstype and flags")
+				return false, fail("no " + kind + " rule with the recorded fstype, flags, source and mount point")
 			}
 		case "umount":
-			if !findKind("umount", func(r RS) bool { return true }) {
-				return false, fail("no umount rule")
+			if !findKind("umount", func(r RS) bool { return pathOK(r.Str("MountPoint"), f["name"]) }) {
+				return false, fail("no umount rule on the recorded mount point")
 			}
 		case "pivotroot":
-			if !findKind("pivot_root", func(r RS) bool { return true }) {
-				return false, fail("no pivot_root rule")
+			// the kernel records the new root as name and where the old root is put as srcname
+			if !findKind("pivot_root", func(r RS) bool {
+				return pathOK(r.Str("NewRoot"), f["name"]) && pathOK(r.Str("OldRoot"), f["srcname"])
+			}) {
+				return false, fail("no pivot_root rule with the recorded new root and old root")
 			}
 		case "mqueue":
 			if !findKind("mqueue", func(r RS) bool {
